@@ -843,6 +843,18 @@ func (r *coreRun) observe(rec map[string]any) {
 						break
 					}
 				}
+				// ... and whatever is written for a record one of whose values panics while being formatted
+				// (nothing, if the panic simply reaches the caller) has the logger's shape as well
+				sink.reset()
+				func() {
+					defer func() { _ = recover() }()
+					l.WriteThru(context.Background(), slog.InfoLevel, r.ts, 0, "probe", slog.NewAttrs("a", 1, "user", panicStringer{}, "z", 2))
+				}()
+				for _, e := range takeAll() {
+					if e.K == "w" {
+						shapes = append(shapes, shapeOf(e.payload))
+					}
+				}
 				o["shapes"] = shapes
 			}
 			if r.obs["dest"] {
